@@ -74,6 +74,9 @@ class Hist:
         elif r < 0.65:
             w = [int(rng.integers(self.n))]
             g = [cirq.X, cirq.Y, cirq.Z, cirq.H, cirq.S, cirq.T][int(rng.integers(6))]
+            if rng.random() < 0.2:
+                import sympy
+                g = g ** sympy.Symbol(["a", "b", "c"][int(rng.integers(3))])  # a symbolic operation: the parameter caches have something to go stale on
             op = g(self.qubits[w[0]])
             inf = (frozenset(w), frozenset(), frozenset())
         elif r < 0.97 or self.n < 3:
@@ -153,7 +156,11 @@ def check_queries(ctx, h, circuit, what):
     ok = frozenset(circuit.all_measurement_key_names()) == frozenset(fresh.all_measurement_key_names()) == mk_raw
     ctx.check(ok, "fresh-rebuild-queries", "C05:stale-measurement-keys", "%r vs %r" % (sorted(circuit.all_measurement_key_names()), sorted(mk_raw)), **wit)
     ctx.check(circuit == fresh and fresh == circuit, "fresh-rebuild-queries", "C05:eq-vs-fresh", "circuit != Circuit(its moments)", **wit)
-    ctx.check(cirq.is_parameterized(circuit) is False and not cirq.parameter_names(circuit), "fresh-rebuild-queries", "C05:stale-parameters", "", **wit)
+    pn_raw = set()
+    for _, op in raw:
+        pn_raw |= set(cirq.parameter_names(op))
+    ctx.check(set(cirq.parameter_names(circuit)) == pn_raw and cirq.is_parameterized(circuit) == bool(pn_raw), "fresh-rebuild-queries", "C05:stale-parameters",
+              "parameter_names(circuit) = %r, its operations hold %r" % (sorted(cirq.parameter_names(circuit)), sorted(pn_raw)), **wit)
     fz = circuit.freeze()
     ctx.check(fz == fresh.freeze() and hash(fz) == hash(fresh.freeze()) and list(fz.moments) == list(circuit.moments), "fresh-rebuild-queries", "C05:stale-frozen", "freeze() is not the current circuit", **wit)
     ctx.check(len(circuit) == len(circuit.moments) and list(circuit) == list(circuit.moments), "fresh-rebuild-queries", "C05:len-iter", "", **wit)
@@ -571,6 +578,25 @@ def sec_history(ctx, rng, case):
                 c.append(o)
                 ctx.check(list(old.moments) == before_moments, "placement-documented", "C05:copy-shares-state", "editing a copy changed the original", history=h.log[-8:])
                 check_edit(ctx, h, "append-after-copy-like", before, positions(c), [i], [], L0, False)
+            elif kind == 22:  # reflected add: operations (or a Moment) + circuit, right after the circuit answered its queries
+                ops = [h.new_op() for _ in range(int(rng.integers(1, 4)))]
+                check_queries(ctx, h, c, "before-radd")
+                what = "radd"
+                h.log.append("c = %s + c" % [i for _, i in ops])
+                if rng.random() < 0.3:
+                    left = cirq.Moment([ops[0][0]])
+                    for _, i in ops[1:]:
+                        del h.info[i]
+                    ops = ops[:1]
+                    head = [left]
+                else:
+                    left = [o for o, _ in ops]
+                    head = list(cirq.Circuit(left).moments)
+                c2 = left + c
+                ctx.check(list(c2.moments) == head + before_moments and list(c.moments) == before_moments, "placement-documented", "C05:radd-structure",
+                          "ops + circuit is not Circuit(ops) followed by the circuit's moments (or changed the circuit)", history=h.log[-8:])
+                c = c2
+                check_queries(ctx, h, c, "after-radd")
             elif kind == 21 and L0 > 0:  # insert_at_frontier
                 ops = [h.new_op() for _ in range(int(rng.integers(1, 4)))]
                 start = int(rng.integers(0, L0 + 1))
